@@ -12,7 +12,10 @@ package main
 
 import (
 	"context"
+	"encoding/json"
 	"fmt"
+	"net/http/httptest"
+	"strings"
 	"sync/atomic"
 	"time"
 
@@ -144,6 +147,7 @@ func runLifecycles(R *res.Result, seed uint64, rounds int) {
 		}
 	}
 	runSchedulerLifecycles(R, w, master, 4)
+	runEvictConfigUpdates(R, w, master, 2)
 	runConfigReelections(R, w, master, 2)
 }
 
@@ -421,4 +425,121 @@ func runConfigReelections(R *res.Result, w *life10.World, master *rng.R, rounds 
 		}
 	}
 	// leave no property behind for the phases of a later run on this server
+}
+
+// ---- round 8: the evict-leader configuration through its HTTP handler ----
+// evict-leader(store 1) and grant-leader(store 2) are registered on the RaftCluster; POST /config {"store_id": 2} is sent to
+// the REAL handler of the evict-leader scheduler (what POST /schedulers is redirected to once the scheduler exists).  Store 2 is
+// paused by grant-leader, so the request is refused (500).  ORACLE: a refused request leaves the served configuration as it was;
+// every store the served evict-leader configuration lists is closed for leader transfer - also after grant-leader is removed -
+// and balance-leader / shuffle-leader hand no leader to a listed store.
+type evictCfgRec struct {
+	Requests []string
+	Answers  []int
+}
+
+func runEvictConfigUpdates(R *res.Result, w *life10.World, master *rng.R, rounds int) {
+	const n = 3
+	bc := w.S.GetBasicCluster()
+	for k := 0; k < rounds; k++ {
+		w.Reset(n)
+		pid := uint64(9700)
+		for q := 0; q < 10; q++ {
+			meta := &metapb.Region{Id: uint64(7400 + q), StartKey: []byte(fmt.Sprintf("e%02d", q)), EndKey: []byte(fmt.Sprintf("e%02d", q+1)),
+				RegionEpoch: &metapb.RegionEpoch{ConfVer: 5, Version: 5}}
+			for _, st := range []uint64{3, 2, 1} {
+				pid++
+				meta.Peers = append(meta.Peers, &metapb.Peer{Id: pid, StoreId: st})
+			}
+			bc.PutRegion(core.NewRegionInfo(meta, meta.Peers[0], core.SetApproximateSize(10), core.SetApproximateKeys(100)))
+		}
+		for id := uint64(1); id <= n; id++ {
+			_ = w.Heartbeat(id, 10)
+		}
+		storage := core.NewStorage(kv.NewMemoryKV())
+		oc := w.RC.GetOperatorController()
+		mk := func(typ, store string) schedule.Scheduler {
+			s, err := schedule.CreateScheduler(typ, oc, storage, schedule.ConfigSliceDecoder(typ, []string{store}))
+			if err != nil {
+				panic(err)
+			}
+			return s
+		}
+		evict, grant := mk(schedulers.EvictLeaderType, "1"), mk(schedulers.GrantLeaderType, "2")
+		if err := w.RC.AddScheduler(evict, "1"); err != nil {
+			R.Notes = append(R.Notes, "evict-leader config history skipped: "+err.Error())
+			continue
+		}
+		if err := w.RC.AddScheduler(grant, "2"); err != nil {
+			R.Notes = append(R.Notes, "evict-leader config history skipped: "+err.Error())
+			_ = w.RC.RemoveScheduler(schedulers.EvictLeaderName)
+			continue
+		}
+		list := func() (string, map[uint64]bool) {
+			rw := httptest.NewRecorder()
+			evict.ServeHTTP(rw, httptest.NewRequest("GET", "/list", nil))
+			var conf struct {
+				StoreIDWithRanges map[uint64]interface{} `json:"store-id-ranges"`
+			}
+			_ = json.Unmarshal(rw.Body.Bytes(), &conf)
+			ids := map[uint64]bool{}
+			var xs []string
+			for id := range conf.StoreIDWithRanges {
+				ids[id] = true
+			}
+			for id := uint64(1); id <= n; id++ {
+				if ids[id] {
+					xs = append(xs, fmt.Sprint(id))
+				}
+			}
+			return "[" + strings.Join(xs, " ") + "]", ids
+		}
+		rec := evictCfgRec{}
+		before, _ := list()
+		body := `{"store_id": 2}`
+		rw := httptest.NewRecorder()
+		evict.ServeHTTP(rw, httptest.NewRequest("POST", "/config", strings.NewReader(body)))
+		rec.Requests, rec.Answers = append(rec.Requests, "POST /config "+body), append(rec.Answers, rw.Code)
+		R.Count(fmt.Sprintf("lifecycle:evict-config-update-answered-%d", rw.Code))
+		after, _ := list()
+		replay := map[string]interface{}{"evict-leader-config": rec}
+		hist := fmt.Sprintf("evict-leader(1) and grant-leader(2) registered; POST /config %s to evict-leader answered %d", body, rw.Code)
+		if rw.Code != 200 && after != before {
+			R.Violate("C11:refused-evict-leader-update-changes-served-config",
+				fmt.Sprintf("%s; evict-leader stores before %s, after %s", hist, before, after), replay)
+		}
+		// grant-leader goes away: it releases store 2
+		_ = w.RC.RemoveScheduler(schedulers.GrantLeaderName)
+		time.Sleep(150 * time.Millisecond)
+		hist += "; grant-leader removed"
+		_, listed := list()
+		for id := range listed {
+			if st := w.RC.GetStore(id); st != nil && st.AllowLeaderTransfer() {
+				R.Violate("C11:store-in-evict-leader-config-accepts-leaders",
+					fmt.Sprintf("%s; the evict-leader configuration lists store %d, which is served with leader transfer allowed", hist, id), replay)
+			}
+		}
+		for _, typ := range []string{schedulers.BalanceLeaderType, schedulers.ShuffleLeaderType} {
+			sch, err := schedule.CreateScheduler(typ, oc, storage, schedule.ConfigSliceDecoder(typ, []string{"", ""}))
+			if err != nil {
+				continue
+			}
+			for t := 0; t < 8; t++ {
+				for _, op := range sch.Schedule(w.RC) {
+					region := w.RC.GetRegion(op.RegionID())
+					if region == nil {
+						continue
+					}
+					R.Count("lifecycle:evict-config:" + typ + ":operator")
+					if to := sim10.Run(region, op).Final().Leader; to != region.GetLeader().GetStoreId() && listed[to] {
+						R.Violate("C11:"+typ+":leader-to-store-in-evict-leader-config",
+							fmt.Sprintf("%s hands the leader to store %d: %s", sim10.Summary(op), to, hist), replay)
+					}
+				}
+			}
+		}
+		R.Count("lifecycle:evict-config-history")
+		_ = w.RC.RemoveScheduler(schedulers.EvictLeaderName)
+		time.Sleep(50 * time.Millisecond)
+	}
 }
